@@ -647,6 +647,7 @@ impl WriterProp {
         };
         let mut prefix_checked = 0usize;
         let mut panicked_once = false;
+        let mut had_failure = false;
         let mut dropped = false;
         let mut opi = 0;
 
@@ -829,8 +830,12 @@ impl WriterProp {
                         }
                     }
                 }
-                // content oracles
-                if !failing {
+                // content oracles: until the sink has failed for the first time it is just a benign
+                // sink, so the exact (prefix / equality) oracle applies in the failing class too
+                if fail_idx.is_some() {
+                    had_failure = true;
+                }
+                if !failing || !had_failure {
                     let acc = &s.accepted;
                     if acc.len() > written.len()
                         || acc[prefix_checked..] != written[prefix_checked..acc.len()]
@@ -926,7 +931,11 @@ impl WriterProp {
                     );
                 }
             } else if !self.c14 && !panicked_once {
-                if !failing {
+                // the flush performed by the drop itself may have been the first failure
+                if s.c.errors + s.c.zeros > 0 {
+                    had_failure = true;
+                }
+                if !failing || !had_failure {
                     if s.accepted != written {
                         violation = viol(
                             name("drop_equal"),
